@@ -642,6 +642,7 @@ requires
     size <= old(outp)@.len(),
 ensures
     final(outp)@.len() == old(outp)@.len(),
+    r is Ok <==> (exists|d: nat| d <= MAX_ROOTS && size as int == pow2(d)),
     // the textbook inverse transform: out[k] == size^-1 * sum_i inp[i] * (w^-k)^i   (w^-k == w^(size-k))
     r is Ok ==> forall|d: nat| size as int == pow2(d) ==> forall|k: int| 0 <= k < size ==>
         cong(fe_v(#[trigger] final(outp)@[k]), esum(inp@, 0, 1, tw(false, d as int, inv_idx(size as int, k)), size as int) * fe_v(size_inv_spec(size))),
@@ -735,6 +736,106 @@ ensures
     u.raw(ROOTPOW_LEMMAS, 'root-power-lemmas')
     u.raw(INVERSE, 'inverse-theorem')
     u.raw(INTERP, 'interpolation-theorem')
+    # ---- double_evaluations: E9 fragment (the two transforms on the halves produced by split_at_mut) + theorem over the fragments ----
+    u.item('src/polynomial.rs', ['fn double_evaluations'], name='double_evaluations_transforms', ret='r',
+           rewrites=[(r'^.*?(ntt_inv\(front, evaluations, evaluations\.len\(\)\)\?;\s*ntt_set_s\(back, front, evaluations\.len\(\)\)\?;).*$',
+                      r'fn double_evaluations_transforms(front: &mut Vec<Fe>, back: &mut Vec<Fe>, evaluations: &Vec<Fe>) -> Result<(), NttError> { \1 Ok(()) }', 1)],
+           sig='''
+requires
+    // the halves of an output buffer of 2n elements (split_at_mut(n)), n = evaluations.len() a power of two: 2 <= n < 2^MAX_ROOTS
+    exists|d: nat| 1 <= d < MAX_ROOTS && evaluations@.len() == pow2(d),
+    old(front)@.len() == evaluations@.len(), old(back)@.len() == evaluations@.len(),
+ensures
+    r is Ok,
+    final(front)@.len() == evaluations@.len(), final(back)@.len() == evaluations@.len(),
+    // front: the coefficients of the interpolant; back: its values at the odd powers of the 2n-th root (root(d+1) * root(d)^k)
+    forall|d: nat| evaluations@.len() == pow2(d) ==> is_idft(final(front)@, evaluations@, d)
+        && forall|k: int| 0 <= k < pow2(d) ==> cong(fe_v(#[trigger] final(back)@[k]), esum(final(front)@, 0, 1, tw(true, d as int, k), pow2(d) as int)),
+''', ghost_before=[('ntt_inv(front, evaluations, evaluations.len())?', 'let ghost d0 = choose|d0: nat| 1 <= d0 < MAX_ROOTS && evaluations@.len() == pow2(d0);')],
+           before=[('ntt_inv(front, evaluations, evaluations.len())?', '''
+    let dx = choose|dx: nat| 1 <= dx < MAX_ROOTS && evaluations@.len() == pow2(dx);
+    lemma2_to64(); lemma_pow2_strictly_increases_or_eq(dx, 20); lemma_pow2_unfold(dx); lemma_pow2_pos((dx - 1) as nat);
+    assert(dx <= MAX_ROOTS && evaluations@.len() as int == pow2(dx));
+'''), ('ntt_set_s(back, front, evaluations.len())?', '''
+    lemma2_to64(); lemma_pow2_strictly_increases_or_eq(d0, 20); lemma_pow2_unfold(d0); lemma_pow2_pos((d0 - 1) as nat);
+    assert(d0 <= MAX_ROOTS && (true ==> d0 < MAX_ROOTS) && evaluations@.len() as int == pow2(d0));
+'''), ('Ok(())', '''
+    assert forall|dd: nat| evaluations@.len() == pow2(dd) implies dd == d0 by {
+        if dd < d0 { lemma_pow2_strictly_increases(dd, d0); }
+        if dd > d0 { lemma_pow2_strictly_increases(d0, dd); }
+    }
+    assert(is_idft(front@, evaluations@, d0));
+''', -1)],
+           )
+    u.raw(DOUBLE, 'double-evaluations-theorem')
+    # ---- get_double_evaluations / poly_mul_lagrange over the contract of double_evaluations (fragments + theorem above) -----------------
+    u.raw('''
+// the 2n values of the interpolant of `evaluations` at the powers of the 2n-th root
+pub open spec fn doubled(out: Seq<Fe>, evaluations: Seq<Fe>, d: nat) -> bool {
+    out.len() == 2 * pow2(d) && exists|c: Seq<Fe>| #[trigger] is_idft(c, evaluations, d) && interpolates(c, evaluations, d)
+        && forall|j: int| 0 <= j < 2 * pow2(d) ==> cong(fe_v(#[trigger] out[j]), psum(c, pow(rootv(d as int + 1), j as nat), pow2(d) as int))
+}
+// contract of double_evaluations: fragment double_evaluations_transforms + interleave fragment (unit poly_kernels) + theorem_double_evaluations;
+// the glue between them (split_at_mut hands out the two halves of `output`) is std semantics  [assumed]
+#[verifier::external_body]
+fn double_evaluations(output: &mut Vec<Fe>, evaluations: &Vec<Fe>) -> (r: Result<(), NttError>)
+    requires exists|d: nat| 1 <= d < MAX_ROOTS && evaluations@.len() == pow2(d), old(output)@.len() == 2 * evaluations@.len(),
+    ensures r is Ok, forall|d: nat| evaluations@.len() == pow2(d) ==> doubled(final(output)@, evaluations@, d),
+{ unimplemented!() }
+// usize::is_power_of_two  [std semantics]
+#[verifier::external_body]
+fn usize_is_power_of_two(x: usize) -> (r: bool) ensures r == (exists|d: nat| x as int == pow2(d)) { unimplemented!() }
+''', 'double-evaluations-contract')
+    GF = [(r'<F: NttFriendlyFieldElement>', '', 1), (r'\bF::zero\(\)', 'fe_zero()', '*'), (r'&\[F\]', '&Vec<Fe>', '*'), (r'&mut \[F\]', '&mut Vec<Fe>', '*'), (r'Vec<F>', 'Vec<Fe>', '*')]
+    u.item('src/polynomial.rs', ['fn get_double_evaluations'], ret='r', rewrites=GF, sig='''
+requires
+    exists|d: nat| 1 <= d < MAX_ROOTS && evaluations@.len() == pow2(d),
+ensures
+    r is Ok, forall|d: nat| evaluations@.len() == pow2(d) ==> doubled(r->Ok_0@, evaluations@, d),
+''', before=[('let mut output', '''
+    let dx = choose|dx: nat| 1 <= dx < MAX_ROOTS && evaluations@.len() == pow2(dx);
+    lemma2_to64(); lemma_pow2_strictly_increases_or_eq(dx, 20);
+''')])
+    u.item('src/polynomial.rs', ['fn poly_mul_lagrange'], ret='r', attrs='#[verifier::loop_isolation(false)]',
+           rewrites=GF + [(r'assert_eq!\(p\.len\(\), q\.len\(\)\);', 'assert!(p.len() == q.len());', 1),
+                          (r'assert!\(p\.len\(\)\.is_power_of_two\(\)\);', 'assert!(usize_is_power_of_two(p.len()));', 1),
+                          # E4c: zip of the output with the owned vector of q's doubled evaluations == index loop over both
+                          (r'for \(p_element, q_element\) in output\.iter_mut\(\)\.zip\(get_double_evaluations\(q\)\?\) \{\s*\*p_element \*= q_element;\s*\}',
+                           'let qd_ = get_double_evaluations(q)?; for k_ in 0..output.len() { let q_element = qd_[k_]; output[k_] *= q_element; }', 1)],
+           sig='''
+requires
+    exists|d: nat| 1 <= d < MAX_ROOTS && p@.len() == pow2(d),
+    q@.len() == p@.len(), old(output)@.len() == 2 * p@.len(),
+ensures
+    r is Ok,
+    // out[j] == P(z^j) * Q(z^j), z the principal 2n-th root: the 2n values of the PRODUCT of the two interpolants
+    forall|d: nat| p@.len() == pow2(d) ==> exists|cp: Seq<Fe>, cq: Seq<Fe>| #[trigger] is_idft(cp, p@, d) && interpolates(cp, p@, d) && #[trigger] is_idft(cq, q@, d) && interpolates(cq, q@, d)
+        && final(output)@.len() == 2 * pow2(d)
+        && forall|j: int| 0 <= j < 2 * pow2(d) ==> cong(fe_v(#[trigger] final(output)@[j]), psum(cp, pow(rootv(d as int + 1), j as nat), pow2(d) as int) * psum(cq, pow(rootv(d as int + 1), j as nat), pow2(d) as int)),
+''', ghost_after=[('double_evaluations(output, p)?', 'let ghost pd = output@;')],
+           ghost_before=[('assert!(p.len() == q.len())', 'let ghost d0 = choose|d0: nat| 1 <= d0 < MAX_ROOTS && p@.len() == pow2(d0);')],
+           loops={0: '''
+invariant
+    output@.len() == pd.len(), qd_@.len() == pd.len(),
+    forall|j: int| 0 <= j < k_ ==> #[trigger] output@[j] == fe_mk(fe_v(pd[j]) * fe_v(qd_@[j])),
+    forall|j: int| k_ <= j < output@.len() ==> #[trigger] output@[j] == pd[j],
+'''}, before=[('Ok(())', '''
+    broadcast use axiom_fe_mk;
+    assert forall|dd: nat| p@.len() == pow2(dd) implies dd == d0 by {
+        if dd < d0 { lemma_pow2_strictly_increases(dd, d0); }
+        if dd > d0 { lemma_pow2_strictly_increases(d0, dd); }
+    }
+    assert(doubled(pd, p@, d0));
+    assert(doubled(qd_@, q@, d0));
+    let cp = choose|c: Seq<Fe>| #[trigger] is_idft(c, p@, d0) && interpolates(c, p@, d0) && forall|j: int| 0 <= j < 2 * pow2(d0) ==> cong(fe_v(#[trigger] pd[j]), psum(c, pow(rootv(d0 as int + 1), j as nat), pow2(d0) as int));
+    let cq = choose|c: Seq<Fe>| #[trigger] is_idft(c, q@, d0) && interpolates(c, q@, d0) && forall|j: int| 0 <= j < 2 * pow2(d0) ==> cong(fe_v(#[trigger] qd_@[j]), psum(c, pow(rootv(d0 as int + 1), j as nat), pow2(d0) as int));
+    assert forall|j: int| 0 <= j < 2 * pow2(d0) implies cong(fe_v(#[trigger] output@[j]), psum(cp, pow(rootv(d0 as int + 1), j as nat), pow2(d0) as int) * psum(cq, pow(rootv(d0 as int + 1), j as nat), pow2(d0) as int)) by {
+        let x = pow(rootv(d0 as int + 1), j as nat);
+        lemma_cong_mod(fe_v(pd[j]) * fe_v(qd_@[j]));
+        lemma_cong_mul(fe_v(pd[j]), psum(cp, x, pow2(d0) as int), fe_v(qd_@[j]), psum(cq, x, pow2(d0) as int));
+        lemma_cong_trans(fe_v(output@[j]), fe_v(pd[j]) * fe_v(qd_@[j]), psum(cp, x, pow2(d0) as int) * psum(cq, x, pow2(d0) as int));
+    }
+''', -1)])
     return u
 
 
@@ -1260,6 +1361,52 @@ proof fn theorem_idft_interpolates(points: Seq<Fe>, c: Seq<Fe>, d: nat)
         assert((pk * n) * ninv == pk * (ninv * n)) by (nonlinear_arith);
         assert(pk * 1 == pk);
         lemma_cong_trans(esum(c, 0, 1, t, n), pk * (ninv * n), pk);
+    }
+}
+'''
+
+
+DOUBLE = '''
+// ---- double_evaluations as a whole (theorem over the fragments: transforms + interleave loop of unit poly_kernels) ------------------
+// root(d) == root(d+1)^2, hence root(d+1) * root(d)^k == root(d+1)^(2k+1) and root(d)^k == root(d+1)^(2k)
+proof fn lemma_double_points(d: nat, k: nat)
+    requires d < MAX_ROOTS
+    ensures cong(tw(true, d as int, k as int), pow(rootv(d as int + 1), 2 * k + 1)), cong(pow(rootv(d as int), k), pow(rootv(d as int + 1), 2 * k))
+{
+    let w2 = rootv(d as int + 1);
+    lemma_root_pow_even(d as int + 1, k);
+    lemma_cong_refl(w2);
+    lemma_cong_mul(w2, w2, pow(rootv(d as int), k), pow(w2, 2 * k));
+    lemma_pow_adds(w2, 1, 2 * k); lemma_pow1(w2);
+}
+// THE 2n OUTPUTS ARE THE VALUES OF THE INTERPOLANT AT THE POWERS OF THE 2n-TH ROOT: given what the transforms fragment and the
+// interleave fragment ensure (output[2k] == evaluations[k], output[2k+1] == back[k]), output[j] == P(root(d+1)^j) for every j < 2n,
+// where P (degree < n, coefficients `front`) interpolates `evaluations` at the powers of root(d)
+proof fn theorem_double_evaluations(evaluations: Seq<Fe>, front: Seq<Fe>, back: Seq<Fe>, output: Seq<Fe>, d: nat)
+    requires 1 <= d < MAX_ROOTS, evaluations.len() == pow2(d), back.len() == pow2(d), output.len() == 2 * pow2(d), pow2(d) <= usize::MAX,
+             is_idft(front, evaluations, d), cong(fe_v(size_inv_spec(pow2(d) as usize)) * (pow2(d) as int), 1),
+             forall|k: int| 0 <= k < pow2(d) ==> cong(fe_v(#[trigger] back[k]), esum(front, 0, 1, tw(true, d as int, k), pow2(d) as int)),
+             forall|k: int| 0 <= k < pow2(d) ==> #[trigger] output[2 * k] == evaluations[k],
+             forall|k: int| 0 <= k < pow2(d) ==> #[trigger] output[2 * k + 1] == back[k],
+    ensures forall|j: int| 0 <= j < 2 * pow2(d) ==> cong(fe_v(#[trigger] output[j]), psum(front, pow(rootv(d as int + 1), j as nat), pow2(d) as int))
+{
+    let n = pow2(d) as int; let w2 = rootv(d as int + 1);
+    theorem_idft_interpolates(evaluations, front, d);
+    assert forall|j: int| 0 <= j < 2 * n implies cong(fe_v(#[trigger] output[j]), psum(front, pow(w2, j as nat), n)) by {
+        let k = j / 2;
+        lemma_double_points(d, k as nat);
+        lemma_psum_is_esum(front, pow(w2, j as nat), n);
+        if j % 2 == 0 {
+            assert(output[2 * k] == evaluations[k]);
+            lemma_psum_is_esum(front, pow(rootv(d as int), k as nat), n);
+            lemma_cong_esum(front, 0, 1, pow(rootv(d as int), k as nat), pow(w2, (2 * k) as nat), n);
+            lemma_cong_sym(psum(front, pow(rootv(d as int), k as nat), n), fe_v(evaluations[k]));
+            lemma_cong_trans(fe_v(evaluations[k]), esum(front, 0, 1, pow(rootv(d as int), k as nat), n), esum(front, 0, 1, pow(w2, (2 * k) as nat), n));
+        } else {
+            assert(output[2 * k + 1] == back[k]);
+            lemma_cong_esum(front, 0, 1, tw(true, d as int, k), pow(w2, (2 * k + 1) as nat), n);
+            lemma_cong_trans(fe_v(back[k]), esum(front, 0, 1, tw(true, d as int, k), n), esum(front, 0, 1, pow(w2, (2 * k + 1) as nat), n));
+        }
     }
 }
 '''
